@@ -204,16 +204,27 @@ def main(argv):
                 ck.violation("zero-excitation:" + fname, "%s: zero excitation gives a field of %s at %d of %d nodes" % (fname, zbad[0], len(zbad), len(xz)),
                              dict(formulation=fname, files=runs["zero"][0].files()))
         # ---- reciprocity: electrostatics / heat conductors, magnetics mutual linkage
-        for t, (kind, axi) in enumerate([("e", False), ("e", True), ("h", False), ("m", False), ("m", True)]):
+        for t, (kind, axi, par) in enumerate([("e", False, None), ("e", True, None), ("h", False, None), ("m", False, None), ("m", True, None),
+                                              ("m", False, "parallel"), ("m", False, "parallel-solid")]):
             p0 = base_problem(kind, rng, axi)
             if kind == "m":
                 if len(p0.labels) < 2:
                     continue
-                p0.circprops = [dict(name="c1", I_re=0.0, type=1), dict(name="c2", I_re=0.0, type=1)]
+                # series circuits (turns) - or, in the last two cases, PARALLEL circuits of one turn, stranded (no conductivity) or solid:
+                # the flux linkage of the circuit that carries no current then comes from the special-case routines of the post-processor
+                ctype = 0 if par else 1
+                p0.circprops = [dict(name="c1", I_re=0.0, type=ctype), dict(name="c2", I_re=0.0, type=ctype)]
                 for lab in p0.labels:
                     lab["circ"] = -1
-                p0.labels[0].update(circ=0, turns=rng.choice([1, 7]))
-                p0.labels[1].update(circ=1, turns=rng.choice([1, 3]))
+                p0.labels[0].update(circ=0, turns=1 if par else rng.choice([1, 7]))
+                p0.labels[1].update(circ=1, turns=1 if par else rng.choice([1, 3]))
+                if par:
+                    stats["reciprocity_parallel_circuits"] = stats.get("reciprocity_parallel_circuits", 0) + 1
+                    for lab in p0.labels[:2]:
+                        if lab["block"] >= 0:
+                            m_ = p0.blockprops[lab["block"]]
+                            m_.pop("LamType", None); m_.pop("LamFill", None)
+                            m_["Sigma"] = 58.0 if par == "parallel-solid" else 0.0
                 for bp in p0.bdryprops:
                     bp.update(A_0=0.0, A_1=0.0, A_2=0.0, c1=0.0)
                 p0.pointprops = []
@@ -269,14 +280,20 @@ def main(argv):
                     rc, out, raw = s.run(build, run.dir)
                     if rc != 0 or "t" not in out:
                         break
-                    got[drive] = out["t"][2 if kind == "m" else 1]
+                    ix_ = 2 if kind == "m" else 1
+                    got[drive] = out["t"][ix_] if len(out["t"]) > ix_ else None       # (an empty print = NaN shortens the list)
                     s2 = lua_post.Session(kind, "p" + femmio.EXT[kind], analyze=False)
                     s2.conductor("t", names[drive])
                     rc, out, raw = s2.run(build, run.dir)
-                    got[("self", drive)] = out["t"][2 if kind == "m" else 1] if "t" in out else None
+                    got[("self", drive)] = out["t"][ix_] if ("t" in out and len(out["t"]) > ix_) else None
                 return got, runs_
             got, pair_runs = couplings(p0, "a")
             ck.case(("reciprocity", kind, axi), nontrivial=True)
+            if len([k for k in got if isinstance(k, int)]) == 2 and (got[0] is None or got[1] is None):
+                # a coupling that comes back without a number (femmcli prints nothing for NaN) is a result, not a reason to skip the pair
+                ck.violation("reciprocity:no-value:%s%s" % (kind, ":" + par if par else ""), "%s%s: the %s of the terminal that carries nothing comes back without a value (NaN): "
+                             "driven 1 -> %r, driven 2 -> %r" % ({"e": "electrostatics", "h": "heat flow", "m": "magnetics"}[kind], " (%s circuits)" % par if par else "",
+                             "flux linkage" if kind == "m" else "charge / heat flow", got[0], got[1]), dict(files=pair_runs[0].files()))
             if len([k for k in got if isinstance(k, int)]) == 2 and got[0] is not None and got[1] is not None:
                 stats["reciprocity_pairs"] += 1
                 sc = max(abs(got.get(("self", 0)) or 0), abs(got.get(("self", 1)) or 0), abs(got[0]), abs(got[1]), 1e-300)
